@@ -58,6 +58,9 @@ CHECKS['C05'] = dict(engine=SYMX, technique='bounded symbolic execution of the r
 CHECKS['C07'] = dict(engine=SYMX, technique=MUT + '; concrete corpus runs',
    text='Parser-made grids (from the ZINC spelling corpus, extra documents with fixed-offset date-times in different DST seasons and at skipped local times, non-official versions 2.5 / 3.0.0, and JSON-origin grids) are re-dumped in both formats, re-parsed, transcoded ZINC->JSON->ZINC and JSON->ZINC->JSON and normalised twice; checks: no exception (except the documented ValueError for an offset no zone has), equal grids, two dumps identical, grid unchanged by dumping, dump(parse(dump(g))) == dump(g) character for character. Concretely for every document and symbolically with one symbolic character substituted at every second (quick) / every (thorough) position, z3 deciding every branch and the final "exists character for which any of these differs" query.',
    note='As C03/C09; JSON floats to six decimals; symbolic runs use the JSON-ready tree; purity is observed through a neutral snapshot of the grid before and after dumping.', ref='5 C07')
+CHECKS['C11'] = dict(engine=SYMX, technique='bounded symbolic execution of Grid.filter and the generated filter functions on symbolic rows (own explorer, z3 decides every branch) against an independent reference evaluator; filters compiled by the real pipeline; replay',
+   text='Filter texts (every and/or/not/parenthesis tree with <=3 (quick) / <=4 (thorough) leaves in two renderings, unparenthesised chains, 14 literal kinds x 6 operators, a->b and a->b->c paths) are compiled by the real parse_filter -> source generation -> exec pipeline; Grid.filter then runs on rows whose tag presence bits, value kinds (symbolic selector over 29 values) and one numeric value (unbounded z3 Int) are symbolic, with symbolic limit. The rows returned (identity and order), carried version/metadata/columns and the untouched source grid are compared with an independent evaluator of the filter AST.',
+   note='Reference semantics documented in the evidence (comparisons between a quantity and a unit-less number, orderings of booleans and of different text kinds are left unspecified); row ids are strings; literal text decoding belongs to C12.', ref='5 C11')
 NA_REASON = {}
 
 def main():
